@@ -177,57 +177,85 @@ def maskFrozen (T : Tables) (names : List String) : Tables :=
   { T with types := T.types.map (fun d => { d with fields := d.fields.map (fun f =>
       if f.kind == .sliceScalar && names.contains f.name then { f with frozen := true } else f) }) }
 
-/-- FINDING C11:cypher.Copy:aliasing:errorContext.errors — `copy()` of SinglePartQuery, UpdatingClause, Create and
-FunctionInvocation copies the promoted slice `errors` shallowly (`errors: s.errors`) while `AddError` appends to it
-in place, so with spare capacity an `AddError` on the copy overwrites the error the original appended. -/
-def knownShared : List String := ["errors"]
-
-def tablesPartial : Tables := maskFrozen tables knownShared
-
-/-- `schemaCopyOK` holds for the current code once the `errors` slices are set aside -/
-theorem schemaCopyOK_partial_inst : schemaCopyOK tablesPartial = true := by decide +kernel
-
-/-- … and fails for the current code as it is -/
-theorem schemaCopyOK_current_fails : schemaCopyOK tables = false := by decide +kernel
+/-- `schemaCopyOK Generated.tables`: every type `Copy` handles copies every field deeply (through helpers that
+allocate) or shares it harmlessly -/
+theorem schemaCopyOK_inst : schemaCopyOK tables = true := by decide +kernel
 
 /-- The copy half of the property at full strength for the current code. -/
 def C11_copy_full : Prop :=
   ∀ (v : Val) (n : Nat), copyPanics tables v = false → (∀ a ∈ v.addrs, a < n) →
     (copy tables v n).1.erase = v.erase ∧ ∀ a ∈ mutAddrs tables (copy tables v n).1, a ∉ v.addrs
 
+/-- `c11_copy`: for the copy table of the current sources the copy of every value (on which `Copy` returns) is
+equal up to addresses and shares no address through which a mutation is possible. -/
+theorem c11_copy : C11_copy_full :=
+  fun v n hp hn => copy_equal_and_fresh tables schemaCopyOK_inst v n hp hn
+
+/-! ### The old copy table (before `fix: errors: Copy(s.errors)` + `case []error` in Copy)
+
+FIXED FINDING C11:cypher.Copy:aliasing:<T>.errors — `copy()` of SinglePartQuery, UpdatingClause, Create and
+FunctionInvocation copied the promoted slice `errors` shallowly (`errors: s.errors`) while `AddError` appends to it
+in place, so with spare capacity an `AddError` on the copy overwrote the error the original had appended.
+`tablesOld` is the current table with exactly that repair undone; the theorems below are about this named
+constant, so they stay true whatever the current sources do. -/
+
+def knownShared : List String := ["errors"]
+
+/-- the copy table as it was: `errors` copied by assignment, no `case []error` in `Copy` -/
+def tablesOld : Tables :=
+  { tables with types := tables.types.map (fun d =>
+      let d := { d with fields := d.fields.map (fun f =>
+        if f.kind == .sliceScalar && knownShared.contains f.name then { f with mode := .shallow } else f) }
+      if d.name == "[]error" then { d with copyCase := false, elemMode := .unknown, helpers := [] } else d) }
+
+theorem schemaCopyOK_old_fails : schemaCopyOK tablesOld = false := by decide +kernel
+
+def C11_copy_full_old : Prop :=
+  ∀ (v : Val) (n : Nat), copyPanics tablesOld v = false → (∀ a ∈ v.addrs, a < n) →
+    (copy tablesOld v n).1.erase = v.erase ∧ ∀ a ∈ mutAddrs tablesOld (copy tablesOld v n).1, a ∉ v.addrs
+
 def tyOf (n : String) : Nat := tables.types.findIdx (fun d => d.name == n)
 
-/-- `&SinglePartQuery{errorContext{errors: []error{e0}}}`: the copy's `errors` slice is the original's -/
+/-- `&SinglePartQuery{errorContext{errors: []error{e0}}}`: the old copy's `errors` slice is the original's -/
 def witness : Val :=
   .node .obj 1 (tyOf "*cypher.SinglePartQuery") []
     [.node .list 2 (tyOf "[]error") [] [.scalar "*errors.errorString" "e0"], .nil, .nil, .nil]
 
-theorem c11_copy_full_refuted : ¬ C11_copy_full := by
+theorem c11_copy_full_refuted_old : ¬ C11_copy_full_old := by
   intro h
   have h1 := (h witness 10 (by decide +kernel) (by decide +kernel)).2 2 (by decide +kernel)
   exact h1 (by decide +kernel)
 
-/-- What does hold for the current code: equality, and freshness of everything but the `errors` slices. -/
-def C11_copy_partial : Prop :=
-  ∀ (v : Val) (n : Nat), copyPanics tablesPartial v = false → (∀ a ∈ v.addrs, a < n) →
-    (copy tablesPartial v n).1.erase = v.erase ∧ ∀ a ∈ mutAddrs tablesPartial (copy tablesPartial v n).1, a ∉ v.addrs
+/-- with the repaired table the same witness is copied apart -/
+example : 2 ∉ mutAddrs tables (copy tables witness 10).1 := by decide +kernel
 
-theorem c11_copy_partial : C11_copy_partial :=
-  fun v n hp hn => copy_equal_and_fresh tablesPartial schemaCopyOK_partial_inst v n hp hn
+def tablesPartial_old : Tables := maskFrozen tablesOld knownShared
 
-/-- the minimal repair: `errors: Copy(s.errors)` with a `case []error:` that clones the slice -/
-def tablesFixed : Tables :=
-  { tables with types := tables.types.map (fun d =>
+/-- `schemaCopyOK` held for the old table once the `errors` slices were set aside -/
+theorem schemaCopyOK_partial_old : schemaCopyOK tablesPartial_old = true := by decide +kernel
+
+/-- what did hold for the old table: equality, and freshness of everything but the `errors` slices -/
+theorem c11_copy_partial_old (v : Val) (n : Nat) (hp : copyPanics tablesPartial_old v = false)
+    (hn : ∀ a ∈ v.addrs, a < n) :
+    (copy tablesPartial_old v n).1.erase = v.erase ∧
+      ∀ a ∈ mutAddrs tablesPartial_old (copy tablesPartial_old v n).1, a ∉ v.addrs :=
+  copy_equal_and_fresh tablesPartial_old schemaCopyOK_partial_old v n hp hn
+
+/-- the minimal repair of the old table: `errors: Copy(s.errors)` with a `case []error:` that clones the slice -/
+def tablesFixed_old : Tables :=
+  { tablesOld with types := tablesOld.types.map (fun d =>
       let d := { d with fields := d.fields.map (fun f =>
         if f.kind == .sliceScalar && knownShared.contains f.name then { f with mode := .deep } else f) }
       if d.name == "[]error" then { d with copyCase := true, elemMode := .deep } else d) }
 
-theorem schemaCopyOK_fixed : schemaCopyOK tablesFixed = true := by decide +kernel
+theorem schemaCopyOK_fixed_old : schemaCopyOK tablesFixed_old = true := by decide +kernel
 
-/-- the full statement holds for the repaired copy table -/
-theorem c11_copy_fixed (v : Val) (n : Nat) (hp : copyPanics tablesFixed v = false) (hn : ∀ a ∈ v.addrs, a < n) :
-    (copy tablesFixed v n).1.erase = v.erase ∧ ∀ a ∈ mutAddrs tablesFixed (copy tablesFixed v n).1, a ∉ v.addrs :=
-  copy_equal_and_fresh tablesFixed schemaCopyOK_fixed v n hp hn
+/-- the full statement held for the repaired old table (what the fix was proved against before it landed) -/
+theorem c11_copy_fixed_old (v : Val) (n : Nat) (hp : copyPanics tablesFixed_old v = false)
+    (hn : ∀ a ∈ v.addrs, a < n) :
+    (copy tablesFixed_old v n).1.erase = v.erase ∧
+      ∀ a ∈ mutAddrs tablesFixed_old (copy tablesFixed_old v n).1, a ∉ v.addrs :=
+  copy_equal_and_fresh tablesFixed_old schemaCopyOK_fixed_old v n hp hn
 
 /-- the walking half of the property for the current code: both side conditions hold, so the generic theorems
 apply to `tables` as they are -/
@@ -248,7 +276,7 @@ def sample : Val :=
     [.node .obj 2 (tyOf "*cypher.SingleQuery") []
       [.node .obj 3 (tyOf "*cypher.SinglePartQuery") [] [.nil, .nil, .nil, .nil], .nil]]
 
-example : copyPanics tablesPartial sample = false ∧ (∀ a ∈ sample.addrs, a < 10) := by decide +kernel
+example : copyPanics tables sample = false ∧ (∀ a ∈ sample.addrs, a < 10) := by decide +kernel
 example : (treeOf tables tables.structural sample).good = true ∧
     (treeOf tables tables.structural sample).labels.length = 3 := by decide +kernel
 /-- a consuming, then cancelling visitor on a small tree: hypotheses of the index-form theorems are satisfiable -/
